@@ -3,9 +3,9 @@
 # instances may run side by side: an item is claimed by mkdir).  Log on stdout.
 cd /verif
 mkdir -p /tmp/seedlock
-for d in /tmp/seed5-C*/out/1[345]; do
+for d in /tmp/seed6-C*/out/16; do
   [ -f $d/patch.diff ] && [ -f $d/meta.json ] || continue
-  id=$(echo $d | sed 's|/tmp/seed5-\(C[0-9]*\)/out/\([0-9]*\)|\1|'); k=$(basename $d)
+  id=$(echo $d | sed 's|/tmp/seed6-\(C[0-9]*\)/out/\([0-9]*\)|\1|'); k=$(basename $d)
   [ -f /verif/seeded/$id-$k/meta.json ] && continue
   mkdir /tmp/seedlock/$id-$k 2>/dev/null || continue
   echo "=== $id-$k"
